@@ -1220,3 +1220,21 @@ REFACTORS += [
          edits=[(FNUM, '        FileTracker::from_file_numbers(vec![0]).unwrap()', '        let mut files = BTreeSet::new();\n        files.insert(FileNumber::new(0));\n        FileTracker { files }'),
                 (FNUM, '        if file_numbers.is_empty() {\n            return None;', '        if file_numbers.len() == 0 {\n            return None;')]),
 ]
+
+REFACTORS += [
+    dict(name='rename_anchor_methods', desc='private/crate methods that rules name are renamed (same signatures): Header::check, FileNumber::can_be_deleted, MemQueue::truncate_head, PersistState::should_persist, FrameType::is_first_frame_of_record',
+         edits=[(HDR, '    pub fn check(&self, payload: &[u8]) -> bool {', '    pub fn matches_payload(&self, payload: &[u8]) -> bool {'),
+                (FRD, '        if !header.check(frame_payload) {', '        if !header.matches_payload(frame_payload) {'),
+                (FNUM, '    pub fn can_be_deleted(&self) -> bool {', '    pub fn is_unreferenced(&self) -> bool {'),
+                (FNUM, '        if first.can_be_deleted() {', '        if first.is_unreferenced() {'),
+                (DIR, 'self.files.count() >= 2 && self.files.first().can_be_deleted()', 'self.files.count() >= 2 && self.files.first().is_unreferenced()'),
+                (FNUM, '        assert!(file.can_be_deleted());', '        assert!(file.is_unreferenced());'),
+                (FNUM, '        assert!(!file.can_be_deleted());', '        assert!(!file.is_unreferenced());'),
+                (FNUM, '        assert!(!file_clone.can_be_deleted());', '        assert!(!file_clone.is_unreferenced());'),
+                (FNUM, '        assert!(file_clone.can_be_deleted());', '        assert!(file_clone.is_unreferenced());'),
+                (Q, '    pub fn truncate_head(&mut self, truncate_range: RangeToInclusive<u64>) -> usize {', '    pub fn evict_up_to(&mut self, truncate_range: RangeToInclusive<u64>) -> usize {'),
+                (QS, '            Some(queue.truncate_head(position))', '            Some(queue.evict_up_to(position))'),
+                (HDR, '    pub fn is_first_frame_of_record(&self) -> bool {', '    pub fn starts_entry(&self) -> bool {'),
+                (RRD, '                    if frame_type.is_first_frame_of_record() {', '                    if frame_type.starts_entry() {'),
+                ]),
+]
